@@ -131,3 +131,15 @@ def run_job(job):
     except Exception as e:  # noqa
         outs.append("render raised %s" % type(e).__name__)
     return outs
+
+
+def load_summary(parser):
+    """What FiltersSet.from_parser_result makes of an accepted parse (C13: must not depend on anything that
+    happened between the parse and the load)."""
+    from sievelib import factory
+    try:
+        fs = factory.FiltersSet("l")
+        fs.from_parser_result(parser)
+        return [repr([(f["name"], f["enabled"], f.get("description")) for f in fs.filters]), repr(fs.requires), render(fs)]
+    except Exception as e:  # noqa
+        return ["raised %s: %s" % (type(e).__name__, e)]
